@@ -4,7 +4,20 @@ package ipoe
 
 import (
 	"testing"
+	"time"
+
+	"github.com/veesix-networks/osvbng/pkg/config"
+	"github.com/veesix-networks/osvbng/pkg/config/subscriber"
+	"github.com/veesix-networks/osvbng/pkg/dataplane"
 )
+
+type c07L2GWCfg struct{ grp *subscriber.SubscriberGroup }
+
+func (f *c07L2GWCfg) GetRunning() (*config.Config, error) { return &config.Config{}, nil }
+func (f *c07L2GWCfg) GetStartup() (*config.Config, error) { return &config.Config{}, nil }
+func (f *c07L2GWCfg) LookupSubscriberGroup(svlan, cvlan uint16) (subscriber.GroupMatch, bool) {
+	return subscriber.GroupMatch{Name: "l2gw", Group: f.grp}, true
+}
 
 func c07IPoE(entry string, n []uint64, f []string) string {
 	data := c07Arg(f, 0)
@@ -12,6 +25,26 @@ func c07IPoE(entry string, n []uint64, f []string) string {
 	case "sub82":
 		c, r := parseOption82(data)
 		return c07Ok(c07TBN(c), c07TBN(r))
+	case "bkl2gw": // bkl2gw <N>,<K>: N DHCP packets of an L2GW group while nobody drains the K-slot trigger queue
+		N, K := int(c07Num(n, 0)), int(c07Num(n, 1))
+		ch := make(chan *dataplane.ParsedPacket, K)
+		c := &Component{cfgMgr: &c07L2GWCfg{grp: &subscriber.SubscriberGroup{AccessTypes: []subscriber.AccessType{subscriber.AccessTypeL2GW}}}}
+		c.l2gwChan = ch
+		returned := 0
+		for i := 0; i < N; i++ {
+			if !c07Returns(1500*time.Millisecond, func() { c.forwardToL2GW(&dataplane.ParsedPacket{OuterVLAN: 100}) }) {
+				c07Hangs++
+				break
+			}
+			returned++
+		}
+		accepted := len(ch)
+		// the handler still works for a packet of the next subscriber, and the queue drains
+		alive := c07Returns(1500*time.Millisecond, func() { c.forwardToL2GW(&dataplane.ParsedPacket{OuterVLAN: 101}) })
+		for len(ch) > 0 {
+			<-ch
+		}
+		return c07Ok(c07U(uint64(returned)), c07U(uint64(accepted)), c07Bool(alive), c07Bool(len(ch) == 0))
 	}
 	return "badline"
 }
